@@ -108,14 +108,29 @@ type SCEVConstant struct{ Value *big.Int }
 func (s *SCEVConstant) EvaluateAt(k *big.Int, cache map[SCEV]*big.Int) *big.Int {
 	return new(big.Int).Set(s.Value)
 }
-func (s *SCEVConstant) IsLoopInvariant(loop *Loop) bool    { return true }
-func (s *SCEVConstant) String() string                     { return s.Value.String() }
-func (s *SCEVConstant) StringWithRenamer(r Renamer) string { return s.Value.String() }
-func (s *SCEVConstant) Name() string                       { return s.Value.String() }
-func (s *SCEVConstant) Type() types.Type                   { return types.Typ[types.Int] }
-func (s *SCEVConstant) Parent() *ssa.Function              { return nil }
-func (s *SCEVConstant) Referrers() *[]ssa.Instruction      { return nil }
-func (s *SCEVConstant) Pos() token.Pos                     { return token.NoPos }
+func (s *SCEVConstant) IsLoopInvariant(loop *Loop) bool { return true }
+func (s *SCEVConstant) String() string                  { return s.Value.String() }
+
+// StringWithRenamer lets the renamer decide how a constant of a recurrence is shown (the
+// canonicalizer applies its literal policy: a loop that starts at 100 or steps by 32 must
+// not carry those literals verbatim when the policy abstracts them everywhere else).  A
+// renamer answers ConstNamePrefix + text; any other answer means "print the value".
+func (s *SCEVConstant) StringWithRenamer(r Renamer) string {
+	if r != nil {
+		if name := r(s); strings.HasPrefix(name, ConstNamePrefix) {
+			return name[len(ConstNamePrefix):]
+		}
+	}
+	return s.Value.String()
+}
+
+const ConstNamePrefix = "lit:"
+
+func (s *SCEVConstant) Name() string                  { return s.Value.String() }
+func (s *SCEVConstant) Type() types.Type              { return types.Typ[types.Int] }
+func (s *SCEVConstant) Parent() *ssa.Function         { return nil }
+func (s *SCEVConstant) Referrers() *[]ssa.Instruction { return nil }
+func (s *SCEVConstant) Pos() token.Pos                { return token.NoPos }
 
 type SCEVUnknown struct {
 	Value       ssa.Value
